@@ -29,6 +29,14 @@ def gen_program(rng, clock=None, n_events=None, p_cancel=0.12, p_bad=0.0,
         n_events = rng.choice([3, 4, 5, 6, 8, 10, 12, 15, 20, 30, 40]) \
             if rng.random() < 0.5 else rng.randint(2, 9)
     delays = INT_DELAYS if clock == "int" else DELAYS
+    display_unit = None
+    if clock == "duration":
+        # the simulator's display unit is independent of the unit the model uses;
+        # some SI values (7.75 s, 15.5 s, 14.25 s ...) do not survive a
+        # divide-and-multiply round trip through 'min' or 'h'
+        display_unit = rng.choice(["s", "min", "h"])
+        if unit == "s" and rng.random() < 0.5:
+            delays = DELAYS + [7.75, 15.5, 14.25, 7.75]
     if rep is None:
         start = rng.choice([0, 0, 0, 1, 2, 10])
         length = rng.choice([2, 3, 4, 5, 6, 8, 10, 10, 20])
@@ -101,14 +109,28 @@ def gen_program(rng, clock=None, n_events=None, p_cancel=0.12, p_bad=0.0,
         if pre:
             rest = [a for a in roots if not any(a is b for b in pre)]
             roots = [["pre", a[1], a[2], a[3]] for a in pre] + rest
+    initial = []
+    if rng.random() < 0.12:
+        # an "initial method" (Simulator.add_initial_method): executed at the end
+        # of every initialize, after construct_model, before the warm-up is scheduled
+        movable = [a for a in roots if a[0] in ("now", "rel", "abs")]
+        if movable:
+            a = movable[-1]
+            roots = [x for x in roots if x is not a]
+            initial = [a]
     prog = {"clock": clock, "rep": rep, "roots": roots, "events": events}
+    if initial:
+        prog["initial"] = initial
+    if rng.random() < 0.1:
+        prog["custom_events"] = True       # every third event is an own SimEventInterface implementation
     if unit:
         prog["unit"] = unit
+        prog["display_unit"] = display_unit
     return prog
 
 
 def count_actions(prog, kind):
-    n = sum(1 for a in prog["roots"] if a[0] == kind)
+    n = sum(1 for a in prog["roots"] + prog.get("initial", []) if a[0] == kind)
     for al in prog["events"].values():
         n += sum(1 for a in al if a[0] == kind)
     return n
@@ -140,6 +162,8 @@ def remove_event(prog, eid):
             return False
         return True
     new = dict(prog)
+    if prog.get("initial"):
+        new["initial"] = [a for a in prog["initial"] if keep(a)]
     new["roots"] = [a for a in prog["roots"] if keep(a)]
     new["events"] = {e: [a for a in al if keep(a)]
                      for e, al in prog["events"].items() if e not in doomed}
